@@ -9,15 +9,27 @@ PAYLOAD_FIELD = ("field", ("var", "self"), "payload")
 INNER = ("field", ("var", "self"), "inner")
 
 
+def is_inner(t):
+    """self.inner, also through Pin::get_mut / as_mut / deref_mut of self."""
+    if t == INNER:
+        return True
+    if isinstance(t, tuple) and t[0] == "field" and t[2] == "inner":
+        b = t[1]
+        while is_call(b) and b[1].split("::")[-1] in ("get_mut", "as_mut", "deref_mut", "get_unchecked_mut", "deref", "as_ref") and b[2]:
+            b = b[2][0]
+        return b == ("var", "self")
+    return False
+
+
 def arm_of(p):
     for c in p.conds:
-        if c[0] == "match" and c[1] == INNER:
+        if c[0] == "match" and is_inner(c[1]):
             return c[2].split("::")[-1].split("(")[0]
     return None
 
 
 def inner_obj(t, variant):
-    return isinstance(t, tuple) and t[0] == "proj" and t[1] == INNER and t[2] == variant + ".0"
+    return isinstance(t, tuple) and t[0] == "proj" and is_inner(t[1]) and t[2] == variant + ".0"
 
 
 def check(run, views, tier):
